@@ -1,4 +1,255 @@
 package main
 
-// placeholder, filled in with the C20 lock-program translator
-func emitMtls() {}
+// Translator for C20: rpc/mtls/mtls.go -> the lock/access programs of every function that touches the allow-list.
+// For each function it walks the body in evaluation order and emits, per object (0 = the receiver, 1.. = parameters
+// of type *PublicKeys), the sequence of
+//   0 RLock  1 RUnlock  2 Lock  3 Unlock  4 Read(.keys)  5 Write(.keys)
+// `defer X.mu.RUnlock()` / `defer X.mu.Unlock()` are appended at the end of the function in LIFO order.
+// Anything it does not understand (lock calls in loops or branches, keys accessed in a closure or goroutine,
+// go statements) sets mtls_shape_ok to false, which breaks the proof obligation rather than being guessed at.
+
+import (
+	"fmt"
+	"go/ast"
+	"go/token"
+	"strings"
+)
+
+type mtlsOp struct{ code, obj int }
+
+type mtlsWalker struct {
+	objs     map[string]int
+	ops      []mtlsOp
+	deferred []mtlsOp
+	ok       bool
+	depth    int // inside a loop / branch / closure
+}
+
+func (w *mtlsWalker) lockCall(call *ast.CallExpr) (mtlsOp, bool) {
+	sel, ok := call.Fun.(*ast.SelectorExpr)
+	if !ok {
+		return mtlsOp{}, false
+	}
+	code := map[string]int{"RLock": 0, "RUnlock": 1, "Lock": 2, "Unlock": 3}
+	c, isLock := code[sel.Sel.Name]
+	if !isLock {
+		return mtlsOp{}, false
+	}
+	mu, ok := sel.X.(*ast.SelectorExpr)
+	if !ok || mu.Sel.Name != "mu" {
+		return mtlsOp{}, false
+	}
+	id, ok := mu.X.(*ast.Ident)
+	if !ok {
+		return mtlsOp{}, false
+	}
+	obj, known := w.objs[id.Name]
+	if !known {
+		w.ok = false
+		return mtlsOp{}, false
+	}
+	return mtlsOp{c, obj}, true
+}
+
+func (w *mtlsWalker) keysAccess(e ast.Expr) (int, bool) {
+	sel, ok := e.(*ast.SelectorExpr)
+	if !ok || sel.Sel.Name != "keys" {
+		return 0, false
+	}
+	id, ok := sel.X.(*ast.Ident)
+	if !ok {
+		w.ok = false
+		return 0, false
+	}
+	obj, known := w.objs[id.Name]
+	if !known {
+		w.ok = false
+		return 0, false
+	}
+	return obj, true
+}
+
+// reads inside an expression, in source order
+func (w *mtlsWalker) expr(e ast.Expr) {
+	if e == nil {
+		return
+	}
+	ast.Inspect(e, func(n ast.Node) bool {
+		switch x := n.(type) {
+		case *ast.FuncLit:
+			// a closure: must not touch the allow-list or its lock directly
+			ast.Inspect(x.Body, func(m ast.Node) bool {
+				if s, ok := m.(*ast.SelectorExpr); ok && (s.Sel.Name == "keys" || s.Sel.Name == "mu") {
+					w.ok = false
+				}
+				return true
+			})
+			return false
+		case *ast.CallExpr:
+			if op, ok := w.lockCall(x); ok {
+				if w.depth > 0 {
+					w.ok = false
+				}
+				w.ops = append(w.ops, op)
+				return false
+			}
+		case *ast.SelectorExpr:
+			if obj, ok := w.keysAccess(x); ok {
+				w.ops = append(w.ops, mtlsOp{4, obj})
+				return false
+			}
+		}
+		return true
+	})
+}
+
+func (w *mtlsWalker) stmt(s ast.Stmt) {
+	switch x := s.(type) {
+	case nil:
+	case *ast.ExprStmt:
+		w.expr(x.X)
+	case *ast.DeferStmt:
+		if op, ok := w.lockCall(x.Call); ok {
+			if w.depth > 0 || (op.code != 1 && op.code != 3) {
+				w.ok = false
+			}
+			w.deferred = append([]mtlsOp{op}, w.deferred...)
+		} else {
+			w.ok = false
+		}
+	case *ast.GoStmt:
+		w.ok = false
+	case *ast.AssignStmt:
+		for _, r := range x.Rhs {
+			w.expr(r)
+		}
+		for _, l := range x.Lhs {
+			if obj, ok := w.keysAccess(l); ok {
+				w.ops = append(w.ops, mtlsOp{5, obj})
+			} else {
+				w.expr(l)
+			}
+		}
+	case *ast.DeclStmt, *ast.IncDecStmt, *ast.BranchStmt, *ast.EmptyStmt:
+	case *ast.ReturnStmt:
+		for _, r := range x.Results {
+			w.expr(r)
+		}
+	case *ast.BlockStmt:
+		for _, t := range x.List {
+			w.stmt(t)
+		}
+	case *ast.IfStmt:
+		w.stmt(x.Init)
+		w.expr(x.Cond)
+		w.depth++
+		w.stmt(x.Body)
+		w.stmt(x.Else)
+		w.depth--
+	case *ast.ForStmt:
+		w.stmt(x.Init)
+		w.expr(x.Cond)
+		w.depth++
+		w.stmt(x.Body)
+		w.stmt(x.Post)
+		w.depth--
+	case *ast.RangeStmt:
+		w.expr(x.X)
+		w.depth++
+		w.stmt(x.Body)
+		w.depth--
+	default:
+		// switch, select, labeled, send ...: not expected in this file's lock-handling functions
+		ast.Inspect(s, func(m ast.Node) bool {
+			if sel, ok := m.(*ast.SelectorExpr); ok && (sel.Sel.Name == "keys" || sel.Sel.Name == "mu") {
+				w.ok = false
+			}
+			return true
+		})
+	}
+}
+
+func isPublicKeysPtr(t ast.Expr) bool {
+	st, ok := t.(*ast.StarExpr)
+	if !ok {
+		return false
+	}
+	id, ok := st.X.(*ast.Ident)
+	return ok && id.Name == "PublicKeys"
+}
+
+func emitMtls() {
+	_, f, err := parseFile("rpc/mtls/mtls.go")
+	fmt.Printf("Definition mtls_found : bool := %v.\n", err == nil)
+	shapeOK := err == nil
+	var entries []string
+	if err == nil {
+		for _, d := range f.Decls {
+			fd, ok := d.(*ast.FuncDecl)
+			if !ok || fd.Body == nil {
+				continue
+			}
+			w := &mtlsWalker{objs: map[string]int{}, ok: true}
+			next := 0
+			if fd.Recv != nil {
+				for _, fld := range fd.Recv.List {
+					if isPublicKeysPtr(fld.Type) {
+						for _, n := range fld.Names {
+							w.objs[n.Name] = next
+							next++
+						}
+					}
+				}
+			}
+			if next == 0 {
+				next = 1 // object 0 is reserved for a receiver
+			}
+			for _, fld := range fd.Type.Params.List {
+				if isPublicKeysPtr(fld.Type) {
+					for _, n := range fld.Names {
+						w.objs[n.Name] = next
+						next++
+					}
+				}
+			}
+			w.stmt(fd.Body)
+			ops := append(w.ops, w.deferred...)
+			if len(ops) == 0 && w.ok {
+				continue
+			}
+			if !w.ok {
+				shapeOK = false
+			}
+			var xs []string
+			for _, o := range ops {
+				xs = append(xs, fmt.Sprintf("(%d, %d)", o.code, o.obj))
+			}
+			entries = append(entries, fmt.Sprintf("(%s, [%s])", coqString(fd.Name.Name), strings.Join(xs, "; ")))
+		}
+		// the allow-list field must not be reachable except through these functions: no exported field, no other selector
+		for _, d := range f.Decls {
+			gd, ok := d.(*ast.GenDecl)
+			if !ok || gd.Tok != token.TYPE {
+				continue
+			}
+			for _, sp := range gd.Specs {
+				ts := sp.(*ast.TypeSpec)
+				st, ok := ts.Type.(*ast.StructType)
+				if !ok || ts.Name.Name != "PublicKeys" {
+					continue
+				}
+				names := []string{}
+				for _, fld := range st.Fields.List {
+					for _, n := range fld.Names {
+						names = append(names, n.Name)
+					}
+				}
+				if strings.Join(names, ",") != "mu,keys" {
+					shapeOK = false
+				}
+			}
+		}
+	}
+	fmt.Printf("Definition mtls_shape_ok : bool := %v.\n", shapeOK)
+	fmt.Printf("Definition mtls_programs : list (string * list (Z * Z)) := [%s]%%Z.\n", strings.Join(entries, "; "))
+}
